@@ -274,3 +274,35 @@ Proof.
     destruct (Nat.eq_dec j start) as [->|]; [assumption|]. apply Hall. lia.
   - injection H as <-. split; [assumption|]. exists start. split; [lia|]. split; [reflexivity|]. intros j Hj. lia.
 Qed.
+
+(** * Combined statements (used by Props/C20.v) *)
+Theorem scalar_codec_canonical_lemma : forall r : N, r <= 2 ^ 256 ->
+  (forall x, x < r -> scalar_decode r (scalar_encode x) = Some x) /\
+  (forall bs x, bytes_ok bs -> scalar_decode r bs = Some x ->
+                bs = scalar_encode x /\ x < r /\ length bs = 32%nat) /\
+  (forall bs, r <= be_val bs -> scalar_decode r bs = None).
+Proof.
+  intros r Hr. split; [intros; apply scalar_codec_rt; assumption|].
+  split; [exact (scalar_codec_canon r)|exact (scalar_codec_rejects r)].
+Qed.
+
+Theorem scalar_codec_le_canonical_lemma : forall r : N, r <= 2 ^ 256 ->
+  (forall x, x < r -> scalar_decode_le r (scalar_encode_le x) = Some x) /\
+  (forall bs x, bytes_ok bs -> scalar_decode_le r bs = Some x ->
+                bs = scalar_encode_le x /\ x < r /\ length bs = 32%nat).
+Proof.
+  intros r Hr. split; [intros; apply scalar_codec_le_rt; assumption|exact (scalar_codec_le_canon r)].
+Qed.
+
+Theorem scalar_from_bytes_capacity_lemma : forall bs, bytes_ok bs ->
+  bls_scalar_from_bytes bs = Some (le_val (firstn 32 bs) mod 2 ^ 254) /\
+  ed_scalar_from_bytes bs = Some (le_val (firstn 32 bs) mod 2 ^ 252).
+Proof. intros bs H. split; [apply bls_scalar_from_bytes_capacity|apply ed_scalar_from_bytes_capacity]; assumption. Qed.
+
+Theorem keygen_bls_lemma :
+  (forall okm, bytes_ok okm -> length okm = 48%nat -> keygen_round okm = Some (be_val okm mod bls_r)) /\
+  (forall okms, (forall i, bytes_ok (okms i) /\ length (okms i) = 48%nat) ->
+     forall fuel start sk, keygen_loop fuel okms start = Some sk ->
+       sk <> 0 /\ exists i, (start <= i)%nat /\ sk = be_val (okms i) mod bls_r /\
+                            forall j, (start <= j < i)%nat -> be_val (okms j) mod bls_r = 0).
+Proof. split; [exact keygen_round_os2ip|exact keygen_loop_spec]. Qed.
